@@ -21,6 +21,8 @@ ASSUMPTIONS = [
 
 
 def judge(case, rows, stats, res):
+    if case.get("carry"):
+        res.tag("rows-carry-stale-input_reaction")
     for i, (inp, row) in enumerate(zip(case["reactions"], rows)):
         if not pp.valid_input(inp):
             res.tag("malformed-sibling-row")
@@ -45,7 +47,7 @@ def _rx(spec):
     return gen.maybe_respelled(base, 4)
 
 
-M = pp.PipelineModule(judge, rx_strategy=_rx, thresholds_strategy=pp.thresholds())
+M = pp.PipelineModule(judge, rx_strategy=_rx, thresholds_strategy=pp.thresholds(), carry=True)
 
 
 def _marker_enum(spec):
